@@ -3475,6 +3475,8 @@ static sexp sexp_read_raw_depth (sexp ctx, sexp in, sexp *shares, int depth) {
     res = SEXP_NULL;
     tmp = sexp_read_raw_depth(ctx, in, shares, depth+1);
     while ((tmp != SEXP_EOF) && (tmp != SEXP_CLOSE) && (tmp != SEXP_RAWDOT)) {
+      if (tmp == SEXP_CLOSE_BRACE)
+        tmp = sexp_read_error(ctx, "too many '}'s", SEXP_NULL, in);
       if (sexp_exceptionp(tmp)) {
         res = tmp;
         break;
@@ -3497,6 +3499,8 @@ static sexp sexp_read_raw_depth (sexp ctx, sexp in, sexp *shares, int depth) {
           } else if (tmp == SEXP_CLOSE) {
             res = sexp_read_error(ctx, "no final element in list after dot",
                                   SEXP_NULL, in);
+          } else if (tmp == SEXP_CLOSE_BRACE) {
+            res = sexp_read_error(ctx, "too many '}'s", SEXP_NULL, in);
           } else if (sexp_read_raw_depth(ctx, in, shares, depth+1) != SEXP_CLOSE) {
             res = sexp_read_error(ctx, "multiple tokens in dotted tail",
                                   SEXP_NULL, in);
